@@ -14,6 +14,7 @@ func init() {
 		Rule:    "history = seeded forest (1..6 entities, depth<=4, any alias/directory layout, all key algorithms incl. brainpool and RSA, all 8 signature algorithms or omitted, key-id extensions, optional profile) + 1..4 runs separated by: regeneration of a middle tier (subject edit), issuer replaced by a hash-stripped or foreign (PrintableString/UTF8String/IA5String/TeletexString DN, PKCS#8 variants) certificate+key, child edits; optionally one entity whose signature algorithm does not fit its signer; distinct = (op-kind sequence, per-run outcome, final artifact state); non-trivial = a run planned work",
 		Oracle:  func() Oracle { return &c01Oracle{} },
 		Explore: exploreC01,
+		LaneP:   laneP_C01,
 	})
 }
 
@@ -264,6 +265,59 @@ func exploreC01(t *testing.T, seed uint64, idx int, tier string, sink *Sink) {
 		sink.Cell("foreign-issuer:" + f)
 	}
 	sink.Report(w)
+	if len(w.Viol) == 0 && w.Harness == "" && idx%6 == 0 {
+		laneP_C01(t, plan, w, sink)
+	}
+}
+
+// laneP_C01: the last run of the history once more, by the real binary on a real directory holding
+// what that run found: the command line's own handling of the plan (listing, consent, the order it
+// hands the changes on in) lies between planning and signing, and lane S does not execute it. The
+// chain verifier then looks at what the binary left.
+func laneP_C01(t *testing.T, plan *Plan, w *World, sink *Sink) {
+	if gopkiBin() == "" || w == nil || plan.Meta["mismatch"] != "" || len(w.Entities()) > 40 {
+		return
+	}
+	// only the history's very last step: the model (w.Ents) is the model of that moment
+	if len(plan.Ops) == 0 || len(w.Runs) == 0 || plan.Ops[len(plan.Ops)-1].K != "run" {
+		return
+	}
+	rr := w.Runs[len(w.Runs)-1]
+	if rr.Op.ID != plan.Ops[len(plan.Ops)-1].ID || !rr.Op.HasTag("gen") || !rr.OK() || rr.Op.Flags&FlagE != 0 || len(rr.Plan) == 0 {
+		return
+	}
+	dir, err := scratchDir()
+	if err != nil {
+		sink.res.Harness = append(sink.res.Harness, err.Error())
+		return
+	}
+	defer removeAll(dir)
+	if err := materialize(dir, rr.Before, w.FS.dirs); err != nil {
+		sink.Cell("lane:P:not-materialisable")
+		return
+	}
+	yes := "y\n"
+	res, err := runBinary(dir, Mix(plan.Seed, 4141), flagArgs(rr.Op.Flags), &yes, plan.TZ)
+	if err != nil {
+		sink.res.Harness = append(sink.res.Harness, "lane P run: "+err.Error())
+		return
+	}
+	sink.Cell("lane:P")
+	if res.Exit != 0 {
+		sink.LaneViolation(plan, "laneP:exit-status", fmt.Sprintf("lane S ran this step (flags %d) successfully, the binary exited %d: %s", rr.Op.Flags, res.Exit, tailStr(res.Stdout, 800)))
+		return
+	}
+	after, _ := readDirSnap(dir)
+	sh := w.shadow(after)
+	for _, c := range sh.CheckChains(ChainOpts{
+		RequireAll:  true,
+		CheckKeyIDs: true,
+		Only:        func(e *EntitySpec, a *Artifact) bool { return a.Pem.HasHash || !a.Exists },
+		IgnoreSig:   func(e *EntitySpec) bool { return e.Issuer == "" && e.Manip != nil && e.Manip.PubKey != "" },
+	}) {
+		sink.LaneViolation(plan, "laneP:"+c.Sig, fmt.Sprintf("after the binary's run (flags %d): %s", rr.Op.Flags, c.Detail))
+		return
+	}
 }
 
 type c01Oracle struct{}
